@@ -169,6 +169,9 @@ func (e *escaper) escapeAction(c context, n *parse.ActionNode) context {
 		}
 	}
 	e.editActionNode(n, s)
+	if c.state == stateAttr {
+		c.attr.dynamic = true
+	}
 	return c
 }
 
@@ -326,6 +329,7 @@ func join(a, b context, node parse.Node, nodeName string) context {
 	if a.attr.value != b.attr.value {
 		a.attr.ambiguousValue = true
 	}
+	a.attr.dynamic = a.attr.dynamic || b.attr.dynamic
 
 	if a.eq(b) {
 		return a
